@@ -173,3 +173,30 @@ fn e_owned_load_then_parse() {
     kani::cover!(filled);
     kani::cover!(!filled);
 }
+
+/// C13 U-owned-mut-probe: a failed `as_array_mut()` / `as_object_mut()` probe on an unparsed
+/// value of another type leaves the value untouched (still raw, same text), so it still
+/// serializes back to its source text verbatim.
+#[kani::proof]
+#[kani::unwind(10)]
+#[kani::stub(crate::parser::Parser::load_owned_lazyvalue, cut_load_owned_lazyvalue)]
+#[kani::stub(crate::reader::Read::from, cut_read_from)]
+fn u_owned_mut_probe_keeps_raw() {
+    let k: u8 = kani::any();
+    kani::assume(k >= 3 && k <= 7);
+    let (raw, ty) = lit(k);
+    let mut o = OwnedLazyValue::new(JsonSlice::Raw(raw), HasEsc::Possible);
+    let want_array: bool = kani::any();
+    let hit = if want_array { o.as_array_mut().is_some() } else { o.as_object_mut().is_some() };
+    let same_kind = if want_array { ty == JsonType::Array } else { ty == JsonType::Object };
+    assert_eq!(hit, same_kind);
+    if !same_kind {
+        match &o.0 {
+            LazyPacked::Raw(r) => assert!(r.raw.as_bytes().len() == raw.len() && r.raw.as_bytes()[0] == raw[0]),
+            _ => panic!("a failed mutable probe must not replace the raw value"),
+        }
+    }
+    kani::cover!(!same_kind && k == 3);
+    kani::cover!(same_kind);
+    core::mem::forget(o);
+}
